@@ -1,0 +1,103 @@
+//go:build verif
+
+// Contracts for package snap, read by the verification-condition generator in /verif (gvc).
+// This file contains comments only; it is compiled only with the build tag "verif" and adds no code.
+package snap
+
+// membership in an integer slice through a choice function (prelude lists)
+//@ macro inSlice(s, k) = 0 <= idxOf(s, k) && idxOf(s, k) < len(s) && s[idxOf(s, k)] == k
+//@ axiom idxOf_def(s Sl_Int, k Int, i Int)
+//@   prelude lists
+//@   requires 0 <= i && i < len(s) && s[i] == k
+//@   ensures inSlice(s, k)
+
+//@ func panicNoPointsFoundForVertices
+//@   panics[C06] true
+
+// C02 (joining consecutive edges): the routed list minus its last element if it has more than one, minus its first
+// if that equals the last vertex already in the ring. Panics exactly when the routed list is empty.
+//@ func cleanupNewVertices
+//@   panics[C06,C02] len(newVertices) == 0
+//@   let n = len(newVertices)
+//@   let kept = ite(n > 1, n - 1, n)
+//@   let dropFirst = !isNil(lastVertex) && newVertices[0] == deref(lastVertex)
+//@   ensures[C02] len(result) == ite(dropFirst, kept - 1, kept)
+//@   ensures[C02] forall(i, 0, len(result), result[i] == newVertices[ite(dropFirst, i + 1, i)])
+
+// C03 / C08: level = tile matrix id + log2(tile width) + 4; every requested id is found back under its level.
+//@ func tileMatrixIDsByLevels
+//@   prelude arith lists
+//@   requires 1 <= tms.TileMatrices[0].TileWidth && tms.TileMatrices[0].TileWidth <= 1099511627776
+//@   requires forall(i, 0, len(tmIDs), 0 <= tmIDs[i] && tmIDs[i] <= 1000)
+//@   loop tmID as i
+//@     invariant 0 - 1 <= i && i < len(tmIDs) && !isNil(tmIDsByLevels)
+//@     invariant forall(j, 0, i + 1, hasKey(tmIDsByLevels, tmLevel(tms, tmIDs[j])) && tmIDsByLevels[tmLevel(tms, tmIDs[j])] == tmIDs[j])
+//@     invariant forall(l Int, hasKey(tmIDsByLevels, l) ==> l == tmLevel(tms, tmIDsByLevels[l]) && inSlice(tmIDs, tmIDsByLevels[l]), trigger(tmIDsByLevels[l]))
+//@     loopuse i + 1 < len(tmIDs) ==> idxOf_def(tmIDs, tmIDs[i + 1], i + 1)
+//@     decreases len(tmIDs) - i
+//@   ensures[C03,C08] forall(j, 0, len(tmIDs), hasKey(result, tmLevel(tms, tmIDs[j])) && result[tmLevel(tms, tmIDs[j])] == tmIDs[j])
+//@   ensures[C03,C08] forall(l Int, hasKey(result, l) ==> l == tmLevel(tms, result[l]) && inSlice(tmIDs, result[l]), trigger(result[l]))
+
+// ---- ring assembly: not verified (data-dependent heuristics, see DESIGN.md); trusted to return without effects on
+// their arguments' lengths. Whether they can panic is NOT assumed: callers treat a panic as possible (maypanic), and
+// C06 covers them with bounded stand-ins only.
+//@ func ensureCorrectWindingOrder
+//@   trusted "go-spatial winding order + ReverseClone: returns the ring or a reversed copy"
+//@   ensures len(result) == len(ring)
+//@   ensures forall(i, 0, len(result), result[i] == ring[i] || result[i] == ring[len(ring) - 1 - i])
+//@ func cleanupNewRing
+//@   trusted "kmpDeduplicate + splitRing: ring assembly heuristics, only bounded stand-ins (C06)"
+//@   maypanic
+//@ func dedupeInnersOuters
+//@   trusted "ring assembly heuristic, only bounded stand-ins (C06)"
+//@   maypanic
+//@ func outersToPolygons
+//@   trusted "wraps every outer ring into a polygon"
+//@   ensures len(result) == len(outers)
+//@ func matchInnersToPolygons
+//@   trusted "ring assembly heuristic, only bounded stand-ins (C06)"
+//@   maypanic
+//@   ensures len(result) >= len(polygons)
+//@ func reverseWindingOrderIfConfigured
+//@   trusted "reverses every ring in place when configured: lengths and nesting unchanged"
+
+// C05 / C08 / C03: what addPointsAndSnap guarantees about the SHAPE of its result (which levels are present, none
+// with an empty list); the rings themselves come from the unverified ring assembly. It may panic (ring assembly,
+// or a segment for which no centre is found); nothing else in it can.
+//@ macro keysIn(m, levels) = forall(k Int, hasKey(m, k) ==> inSlice(levels, k), trigger(hasKey(m, k)))
+//@ func addPointsAndSnap
+//@   mode real
+//@   prelude geom arith lists
+//@   requires indexInv(ix) && !isNil(ix.hitOnce) && !isNil(ix.hitMultiple)
+//@   requires forall(a, 0, len(polygon), forall(b, 0, len(polygon[a]), segCoordOK(polygon[a][b])))
+//@   maypanic
+//@   modifies ix.hitOnce
+//@   modifies ix.hitMultiple
+//@   ensures[C05,C08] !isNil(result) && keysIn(result, levels)
+//@   ensures[C05] forall(k Int, hasKey(result, k) ==> len(result[k]) > 0, trigger(hasKey(result, k)))
+//@   loop ring as r
+//@     invariant 0 - 1 <= r && r < len(polygon)
+//@     invariant indexInv(ix) && !isNil(ix.hitOnce) && !isNil(ix.hitMultiple)
+//@     invariant !isNil(levelMap) && keysIn(levelMap, levels) && !isNil(newOuters) && !isNil(newInners) && !isNil(newPointsAndLines) && keysIn(newPointsAndLines, levels)
+//@     decreases len(polygon) - r
+//@   loop level as it1
+//@     invariant !isNil(newRing)
+//@   loop vertex as v
+//@     invariant 0 - 1 <= v && v < len(ring) && ringLen == len(ring)
+//@     invariant indexInv(ix) && !isNil(ix.hitOnce) && !isNil(ix.hitMultiple) && !isNil(newRing) && !isNil(levelMap)
+//@     decreases len(ring) - v
+//@   loop level#2 as it2
+//@     invariant !isNil(newRing)
+//@   loop level#3 as it3
+//@     invariant !isNil(levelMap) && keysIn(levelMap, levels) && !isNil(newOuters) && !isNil(newInners) && !isNil(newPointsAndLines) && keysIn(newPointsAndLines, levels)
+//@   loop l as it4
+//@     invariant !isNil(newPolygons) && !isNil(newOuters) && !isNil(newInners) && keysIn(newPolygons, levels)
+//@     invariant forall(k Int, hasKey(newPolygons, k) ==> len(newPolygons[k]) > 0, trigger(hasKey(newPolygons, k)))
+//@   loop level#4 as it5
+//@     invariant !isNil(newPolygons) && keysIn(newPolygons, levels)
+//@     invariant forall(k Int, hasKey(newPolygons, k) ==> len(newPolygons[k]) > 0, trigger(hasKey(newPolygons, k)))
+//@   loop pointOrLine as pl
+//@     invariant 0 - 1 <= pl && pl < len(pointsAndLines) && !isNil(newPolygons) && keysIn(newPolygons, levels)
+//@     invariant forall(k Int, hasKey(newPolygons, k) ==> len(newPolygons[k]) > 0, trigger(hasKey(newPolygons, k)))
+//@     invariant pl >= 0 ==> hasKey(newPolygons, level)
+//@     decreases len(pointsAndLines) - pl
